@@ -517,9 +517,16 @@ impl Runner {
                         .map_err(|e| format!("{e:#}")),
                 ),
                 Call::CloneInto { cap, ids } => {
+                    // the destination has vertices, groups (slots 2, 3, ..) and unread data of its own
                     let mut other = new_graph(n, *cap);
                     for i in ids {
                         other.add(*i);
+                    }
+                    for (k, pair) in ids.chunks(2).enumerate() {
+                        if pair.len() == 2 && pair[0] != pair[1] && k < 6 {
+                            other.bind(pair[0], pair[1], crate::lab::Lab::Alpha(0).direct());
+                            other.put(pair[0], &hex_of(&[0xCD; 10]));
+                        }
                     }
                     let _ = other.clone_from_dyn(&**g);
                     replacement = Some(other);
